@@ -175,7 +175,7 @@ class Client(object):
             layers = YowStackBuilder.getDefaultLayers(**self.modules) + (self.app,)
             if self.world.with_probes:
                 from vf.probes import Probe
-                self.probe_low, self.probe_top = Probe("low"), Probe("top")
+                self.probe_low, self.probe_top = Probe("low", transparent_detached="up"), Probe("top")
                 layers = (layers[0], self.probe_low) + layers[1:] + (self.probe_top,)
         else:
             layers = (YowNetworkLayer, YowCoderLayer, YowLoggerLayer, AxolotlControlLayer,
@@ -255,6 +255,8 @@ class Server(object):
         self.faults = {}            # message id -> {"dup": bool, "corrupt": bool}
         self.done_faults = set()
         self.tx_count = {}
+        self.notify_identity_change = False
+        self.identity_notes = 0
         self.keyless_answers = {}   # (requester phone, jid) -> why the directory had no keys for jid
         self.msg_routes = []        # log: (msgid, sender, recipient, kind)
         self.acked_by_client = []
@@ -351,6 +353,13 @@ class Server(object):
             # the account re-registered with a new identity (reinstall): keys of the old installation are void
             acc.prekeys = []
             self.world.count("srv_identity_changes")
+            if self.notify_identity_change:
+                # like the real server: the account's contacts are told that its identity changed
+                for other in list(self.world.clients):
+                    if other != client.phone:
+                        self.identity_notes += 1
+                        self.to_client(other, tup("notification", {"from": client.jid, "type": "encrypt", "id": "idc%d" % self.identity_notes, "t": self.now()}, [tup("identity", {})]))
+                        self.world.count("srv_identity_change_notifications")
         acc.identity, acc.registration, acc.djb_type, acc.skey = up["identity"], up["registration"], up["type"], up["skey"]
         acc.prekeys.extend(up["keys"])
         self.asked_low.discard(client.jid)
@@ -567,6 +576,7 @@ class World(object):
         self.cipher_frames = []    # (phone, bytes) what really left the client in the full wiring
         self.idle_timeouts = 0
         self.server_static = None
+        self.trailing = {}         # phone -> bytes appended to the next frame delivered to it (full wiring)
         self.chunker = None        # optional: fn(bytes) -> [chunks] for server->client bytes in the full wiring
         self.double_close_report = False
         self.hold_raw = False      # when set, the responder's handshake reply is withheld (connection stuck mid-handshake)
@@ -839,6 +849,10 @@ class World(object):
             self.delivered.append((who, t[0], t[1].get("id"), t[1].get("type"), c.generation))
             if c.wiring == "full":
                 data = c.dispatcher.srv.encrypt(frame)
+                if who in self.trailing:
+                    # bytes of a further frame that arrive in the same segment and are never completed (the connection ends)
+                    data += self.trailing.pop(who)
+                    self.count("trailing_partial_frames")
                 for ch in (self.chunker(data) if self.chunker else [data]):
                     c.guarded(lambda ch=ch: c.dispatcher.connectionCallbacks.onRecvData(ch), "receive:" + t[0])
             else:
